@@ -1,19 +1,22 @@
 SPECIFICATION Spec
 CONSTANTS
-    IdOrder <- MCIds4
+    IdOrder <- MCIds3
     ValOrder <- MCVals
     Payloads = {1, 2}
     SegOrder <- MCSegs
     GlobTable <- MCGlob
     Grid <- MCGridSmall
+    TxGrid <- MCTxGridTiny
     JoinCollapse = FALSE
     NoLimitRaw = FALSE
     Faults = TRUE
+    MaxTxOps = 1
 INVARIANTS
     TypeOK
     GetIsLast
     Bijection
     ListIsSlice
+    TxSeesOwnWrites
 PROPERTIES
     FailedOpLeavesNoTrace
     ReopenSame
